@@ -1,13 +1,89 @@
-"""C06: see servelib.run_property (shared Serve model / replay / ServeObs pipeline)."""
+"""C06: servelib.run_property (Serve model / replay / ServeObs) + the control plane at shutdown (Control.tla):
+periodic reloader and watchers -> ReloadChan -> consumer goroutine -> Reload, against Close.  The code-shaped variant of
+the model is checked for NoReloadAfterDestroy (holds since fix F20) and Termination; its remaining counterexample
+(send on the closed ReloadChan when a tick and Close coincide) is a lead that could not be reproduced on the real code
+and is therefore not reported.  The scenario 'Close while the producer is blocked in its send' is replayed on the real
+FBDNSDB (NewFBDNSDB with a 1 s periodic reload over the instrumented backend whose Reload is held at a gate)."""
+import json
+import os
+import subprocess
+
 import servelib
+import vlib
+from vlib import Scratch, tlc, tv, log, tier
+
+
+def control(rep, pid="C06"):
+    thorough = tier() == "thorough"
+    with Scratch() as sc:
+        base = "SPECIFICATION Spec\nCONSTANTS Producers = {%s} SelectSend = %s ReloadChecksDone = %s MaxTicks = %d\n"
+        sc.write("ideal.cfg", base % ("1, 2", "TRUE", "TRUE", 4 if thorough else 3) + "INVARIANTS NoSendOnClosedChannel NoReloadAfterDestroy\nPROPERTY Termination\n")
+        r1 = tlc(sc, "Control", "ideal.cfg", workers=8, timeout=1500)
+        sc.write("code.cfg", base % ("1, 2", "FALSE", "TRUE", 4 if thorough else 3) + "INVARIANTS NoReloadAfterDestroy\nPROPERTY Termination\n")
+        r2 = tlc(sc, "Control", "code.cfg", workers=8, timeout=1500)
+        sc.write("lead.cfg", base % ("1", "FALSE", "TRUE", 2) + "INVARIANTS NoSendOnClosedChannel\n")
+        r3 = tlc(sc, "Control", "lead.cfg", workers=4, timeout=600, allow_violation=True)
+    log("[control] Control.tla: repaired design %d states ok; code variant %d states: no reload after destroy, terminates; send-on-closed-channel lead: %s"
+        % (r1["distinct"], r2["distinct"], r3["violated"]))
+    trace = os.path.join(vlib.OUT, "%s-control.ndjson" % pid.lower())
+    rows = []
+    for i in range(4 if thorough else 1):
+        one = os.path.join(vlib.OUT, "%s-control-%d.ndjson" % (pid.lower(), i))
+        p = vlib.run_vh(["control", "-out", one, "-hold", str(1300 + 150 * i)], timeout=120, check=False)
+        if p.returncode != 0:
+            tail = (p.stderr or "")[-1500:]
+            if "send on closed channel" in tail or "panic:" in tail or "fatal error" in tail:
+                if pid == "C14":          # a crash at shutdown is C14's business; C06 only judges what happens to the backends
+                    rep.violation("crash|control|" + ("send-on-closed-channel" if "send on closed channel" in tail else "panic"),
+                                  "the control plane crashed at shutdown: " + tail[-700:], {"stderr": tail})
+                continue
+            raise vlib.Infra("control driver failed: " + tail[-800:])
+        rows += [json.loads(x) for x in open(one)]
+    vlib.write_ndjson(trace, rows)
+    if rows:
+        res = tv("ControlTrace", trace)
+        for rej in res["rejects"]:
+            e = rows[rej[0] - 1]
+            rep.violation("%s|control|%s" % (rej[1], e.get("scenario")), "control plane scenario %s: %s" % (e.get("scenario"), json.dumps(e)), {"events": rows})
+    rep.cov["control_plane"] = {"states": r1["distinct"] + r2["distinct"] + r3["distinct"], "replays": len([r for r in rows if r["ev"] == "control"]),
+                                "unreproduced_lead": "NoSendOnClosedChannel (%s)" % r3["violated"]}
+    rep.cov["states"] = rep.cov.get("states", 0) + r1["distinct"] + r2["distinct"]
+    rep.cov["transitions"] = rep.cov.get("transitions", 0) + r1["generated"] + r2["generated"]
+
+
+def lifecycle_proof(rep):
+    """Apalache: IndInv of spec/Lifecycle.tla is inductive and implies the three C06 properties - the reference-counting
+    core for ANY number of readers and reloads (TLC covers 2-3 readers)."""
+    obligations = [("Init => IndInv", ["--init=Init", "--inv=IndInv", "--length=0"]),
+                   ("IndInv /\\ Next => IndInv'", ["--init=IndInit", "--inv=IndInv", "--length=1"]),
+                   ("IndInv => CloseOnce /\\ NoUseAfterClose /\\ ClosedWhenDone", ["--init=IndInit", "--inv=Safety", "--length=0"])]
+    done = 0
+    with Scratch() as sc:
+        for name, args in obligations:
+            p = subprocess.run(["timeout", "600", "apalache-mc", "check", "--out-dir=" + sc.path("apa-out")] + args + ["Lifecycle.tla"], cwd=sc.dir,
+                               stdout=subprocess.PIPE, stderr=subprocess.STDOUT, text=True)
+            if "EXITCODE: OK" in p.stdout:
+                done += 1
+            else:
+                raise vlib.Infra("Apalache did not discharge '%s':\n%s" % (name, "\n".join(p.stdout.splitlines()[-15:])))
+    log("[C06] Lifecycle.tla: %d/%d proof obligations discharged by Apalache (unbounded readers / reloads)" % (done, len(obligations)))
+    rep.cov["lifecycle_inductive_invariant"] = {"obligations": len(obligations), "discharged": done, "checker_cmd": "apalache-mc check --init=IndInit --inv=IndInv --length=1 Lifecycle.tla (and two more)",
+                                                "what": [o[0] for o in obligations]}
+
+
+def both(rep):
+    control(rep)
+    lifecycle_proof(rep)
+    # maximum-throughput runs on the instrumented backend: acquisitions racing with reloads between the seams
+    t = 10 if tier() == "thorough" else 3
+    servelib.free_running(rep, "C06", [("sim-cdb", t, False), ("sim-rdb", t, False), ("sim-rdb", t, True)], hot=True)
 
 
 def run():
-    return servelib.run_property("C06")
+    return servelib.run_property("C06", extra=both)
 
 
 def replay(path):
-    import json
     d = json.load(open(path))
     print(json.dumps(d, indent=1)[:6000])
     return 0
